@@ -169,6 +169,10 @@ class Gen:
         d = self.denom(k)[1]
         if self.r.below(4) == 0:
             return "hnf-direct-unreduced", self.scale_lat((d, b))
+        if self.r.below(5) == 0:
+            # the basis alone has a content c (not shared with the denominator unless by chance)
+            c = self.r.choice([2, 3, 6, 7, 2**32, self.pos(self.k(64))])
+            return "hnf-direct-with-content", (d, [[c * x for x in r] for r in b])
         return "hnf-direct", (d, b)
 
     def lat_raw(self, k=None):
@@ -474,7 +478,8 @@ class Gen:
                             break
                     c = "not-triangular(soundness)"
                 l = (d, b)
-                kind = self.r.choice(["member", "member", "member-scaled", "zero", "half@0", "half@1", "half@2", "half@3", "random", "off-by-one"])
+                kind = self.r.choice(["member", "member", "member-scaled", "zero", "half@0", "half@1", "half@2", "half@3", "random", "off-by-one"]
+                                     + (["upper-part-combination"] * 6 if sel.startswith("not-tri") else []))
                 kv = self.k(128)
                 v = [self.rint(kv) for _ in range(4)]
                 num = [sum(b[i][j] * v[j] for j in range(4)) for i in range(4)]
@@ -491,6 +496,10 @@ class Gen:
                     x = (2 * d, [sum(b[i][j] * v2[j] for j in range(4)) for i in range(4)])
                 elif kind == "random":
                     x = self.elem()[1]
+                elif kind == "upper-part-combination":
+                    # integer combination of the columns with the entries below the diagonal zeroed: every division of the
+                    # back-substitution is exact although x is (in general) not in the lattice
+                    x = (d, [sum(b[i][j] * v[j] for j in range(i, 4)) for i in range(4)])
                 elif kind == "off-by-one":
                     t = self.r.below(4)
                     num[t] += self.r.choice([1, -1])
